@@ -541,7 +541,7 @@ def c06_direct(case):
                 out.append('provider %s is NotCacheable but classified STATIC' % i)
             if not ({'cacheable', 'mustcache', 'memoize', 'singleton'} & set(ann)):
                 out.append('provider %s is not marked Cacheable/MustCache/Memoize/Singleton but classified STATIC' % i)
-            bad = [t for t in ints(f['in']) if t in tainted]
+            bad = [t for t in ints(f['in']) if t in tainted and t != 22]
             if bad:
                 out.append('provider %s is STATIC but its input %s comes from invoke or an earlier per-invocation provider' % (i, bad))
         if f['group'] == 'run':
@@ -789,7 +789,8 @@ def c03(ctx):
     return include_family(ctx, 'C03',
                           [('required', 'ok', 'a Required provider is not in the bound chain', None),
                            ('unjustified', '-', 'included provider(s) that nothing receives anything from', 'unjustified_finaldrop')],
-                          lambda c: any(f['inc'] == '0' and int(f['id']) < 900 for f in c.s7_funcs()), rule, extra)
+                          lambda c: any(f['inc'] == '0' and int(f['id']) < 900 for f in c.s7_funcs()), rule, extra,
+                          modes=(('run', None, 'default'), ('run', None, 'plain')))
 
 
 @prop('C15')
@@ -804,3 +805,86 @@ def c15(ctx):
                           [('consumed', 'ok', 'a returned value has no included receiver above and is not ConsumptionOptional', None),
                            ('shadow', 'ok', 'a wrapper overrides a returned type it did not receive (checkForShadowing would reject)', None)],
                           lambda c: bool(c.features() & {'wrapper', 'fallible'}), rule, extra)
+
+
+# ---------------------------------------------------------------- metamorphic pairs: C13 C14 C16
+
+def pair_lines(case):
+    return [l for l in case.lines if l.startswith('pair ')]
+
+
+def pair_family(ctx, prop_id, mode, profile, n, kinds, rule, extra=None, also_s5=True):
+    ob, dis, details = proof_obligations(ctx, prop_id)
+    cases = load_cases(ctx, mode, n, profile)
+    stats = collections.Counter(); distinct = set()
+    if cases is not None:
+        if also_s5:
+            stage_stats(ctx, cases, s5_compare, 'S5')
+        for c in cases:
+            for l in pair_lines(c):
+                tk = l.split()
+                kind = re.sub(r'[:\[].*', '', tk[1])
+                if kinds and not any(kind.startswith(k) for k in kinds):
+                    continue
+                stats[kind + '-' + tk[2]] += 1
+                if tk[2] == 'diff':
+                    ctx.violations.append(('%s pair differs: %s (case %s)' % (tk[1], ' '.join(tk[3:])[:160], c.key),
+                                           write_replay(ctx, 'case_%s.txt' % c.key, c.text()), True))
+                else:
+                    distinct.add((kind, c.shape_key()))
+            if extra:
+                extra(ctx, c, stats)
+            if len(ctx.samples) < 3 and pair_lines(c):
+                ctx.samples.append({'case': c.key, 'providers': [l for l in c.lines if l.startswith(('p ', 'invoke', 'init'))][:10],
+                                    'pairs': pair_lines(c)})
+    for sig, cnt in list(stats.items()):
+        if sig.startswith('known:'):
+            for k in known_open(prop_id, sig[6:]):
+                ctx.known.append('KNOWN-FINDING: property=%s %s (%d cases in this run match signature %s)' % (prop_id, k['what'], cnt, sig[6:]))
+    ctx.cov['evaluations'] = sum(v for k, v in stats.items() if not k.startswith('known:'))
+    ctx.cov['programs'] = len(cases or [])
+    ctx.cov['distinct_nontrivial'] = len(distinct)
+    ctx.cov['traces_validated_against_impl'] = sum(v for k, v in stats.items() if k.endswith('-same'))
+    ctx.cov['pair_outcomes'] = dict(stats)
+    if len(ctx.violations) > 5:
+        ctx.notes.append('%d violations; first 5 reported' % len(ctx.violations)); ctx.violations.sort(key=lambda v: not v[2]); ctx.violations = ctx.violations[:5]
+    return finish(ctx, 'proof', ob, dis, details, rule)
+
+
+@prop('C13')
+def c13(ctx):
+    n = 600 if ctx.tier == 'quick' else 6000
+    rule = ('each generated chain is re-run (real nject) in variants that must be indistinguishable: nested in random sub-Sequences, built '
+            'with Append, with Provide names, with an annotation applied to a sub-collection instead of to each member, and with an Unused '
+            'parameter added to the final function / a Required provider / invoke / init; compared: bind verdict class, included providers, '
+            'full call trace (Unused arguments stripped); evaluations = pairs compared; distinct = (variant kind, provider list)')
+    return pair_family(ctx, 'C13', 'neutral', 'default', n, None, rule, also_s5=False)
+
+
+@prop('C16')
+def c16(ctx):
+    n = 1500 if ctx.tier == 'quick' else 15000
+    rule = ('chains without Reorder/Cluster/Cacheable-family annotations (profile "plain": Shun, Desired, Required, MustConsume, unsatisfiable '
+            'inputs, shadowed providers): every excluded provider is deleted from the list and the chain is bound again; compared: bind '
+            'verdict, included providers, full trace; the include model is compared with the implementation on both (S5)')
+    return pair_family(ctx, 'C16', 'prune', 'plain', n, ['prune'], rule)
+
+
+@prop('C14')
+def c14(ctx):
+    n = 1500 if ctx.tier == 'quick' else 15000
+
+    def extra(ctx, c, stats):
+        if not c.ok or c.skip:
+            return
+        mc = v5(c).get('mustconsume', '-')
+        if mc != '-':
+            if known_open('C14', 'mustconsume_shadowed'):
+                stats['known:mustconsume_shadowed'] += 1
+            else:
+                ctx.violations.append(('MustConsume provider(s) %s included although no running provider receives the value they produce (case %s)'
+                                       % (mc, c.key), write_replay(ctx, 'case_%s.txt' % c.key, c.text()), True))
+    rule = ('for a Desired or auto-desired provider d of a generated chain (not Shun\'d, not in a Cluster) the chain is re-run with d marked '
+            'Required: d must be included in the base exactly when the variant binds, and then both behave identically (verdict, included '
+            'set, trace); MustConsume: verified validator on the implementation\'s bound chain (nearest actual consumer); S5 correspondence')
+    return pair_family(ctx, 'C14', 'desired', 'plain', n, ['desired'], rule, extra)
